@@ -443,6 +443,11 @@ __fixup_fst(struct dseq_clo_s *clo)
 	while (__in_range_p(tmp, clo)) {
 		old = tmp;
 		tmp = __seq_next(tmp, clo);
+		if (!dt_sandwich_only_t_p(tmp) &&
+		    dt_dtcmp(dt_fixup(tmp), dt_fixup(old)) * clo->dir >= 0) {
+			/* no progress, see main() */
+			break;
+		}
 	}
 	/* final checks */
 	old = __seq_this(old, clo);
@@ -743,9 +748,11 @@ increment must not be naught");
 		dt_io_write(tgt, ofmt, NULL, '\n');
 
 		nxt = __seq_next(tmp, &clo);
-		if (clo.naltite && !dt_sandwich_only_t_p(tmp) &&
+		if (!dt_sandwich_only_t_p(tmp) &&
 		    dt_dtcmp(dt_fixup(nxt), dt_fixup(tmp)) * clo.dir <= 0) {
-			/* the alternative increment undid the increment */
+			/* no progress: the alternative increment undid the
+			 * increment, or the calendar has no name for the
+			 * next date (a weekend for business days) */
 			break;
 		}
 		tmp = nxt;
